@@ -523,7 +523,7 @@ func TestVerifC09History(t *testing.T) {
 	_ = topov1alpha1.AddToScheme(scheme)
 	ctx := context.Background()
 	names := []corev1.ResourceName{extension.BatchCPU, extension.BatchMemory, extension.MidCPU, extension.MidMemory}
-	n := h.N(250, 4000)
+	n := h.N(250, 1500)
 	for idx := 0; idx < n; idx++ {
 		r := h.Begin(idx)
 		if r == nil {
